@@ -178,7 +178,19 @@ def mode_roundtrip(cases):
     return [one_roundtrip(sio, spec, opts) for spec in cases[1:]]
 
 
-MODES = {"roundtrip": mode_roundtrip}
+def mode_dump_hex(cases):
+    """real archives as hex, for the byte-level mutation sweep"""
+    import skops.io as sio
+    out = []
+    for spec in cases:
+        try:
+            out.append(sio.dumps(build(spec)).hex())
+        except Exception:
+            out.append(None)
+    return out
+
+
+MODES = {"roundtrip": mode_roundtrip, "dump_hex": mode_dump_hex}
 
 if __name__ == "__main__":
     req = json.load(sys.stdin)
